@@ -5,6 +5,9 @@
 # /repo) and writes one line per seed to seeded/MATRIX.tsv:
 #   seed <TAB> exit <TAB> number of VIOLATION lines <TAB> first violation key
 # A seed is "caught" when the check exits 1 with a VIOLATION line. Exit 3 = patch/build failure.
+# Exit 0 with `equivalent-since:<sha>` in the key column: the seed's meta.json carries `equivalent_since`
+# - a later fix in /repo made the seeded change behaviour-preserving (its own demo passes with the
+# patch applied); it was caught before that commit (see the property's RESULTS.md). Not a miss.
 set -u
 VROOT=$(cd "$(dirname "$0")/.." && pwd)
 cd "$VROOT"
@@ -21,6 +24,10 @@ for ID in $SEL; do
     RC=$?
     N=$(grep -c '^VIOLATION' "$LOG")
     KEY=$(grep -m1 '^VIOLATION' "$LOG" | sed -n 's/.*key=\([^ ]*\).*/\1/p')
+    if [ "$RC" = 0 ] && [ -f "$D/meta.json" ]; then
+      EQ=$(sed -n 's/.*"equivalent_since": *"\([^"]*\)".*/\1/p' "$D/meta.json" | head -1)
+      [ -n "$EQ" ] && KEY="equivalent-since:$EQ"
+    fi
     printf '%s\t%s\t%s\t%s\n' "$(basename "$D")" "$RC" "$N" "$KEY" >>"$TMP"
     printf '%s\t%s\t%s\t%s\n' "$(basename "$D")" "$RC" "$N" "$KEY"
     rm -f "$LOG"
